@@ -511,6 +511,14 @@ Definition s1_builtins : list str := Eval compute in map s_
    "join"; "startswith"; "endswith"; "min"; "max"; "abs"; "sqrt";
    "circle"; "width"; "move"; "line"; "rect"; "color"; "colour"; "stroke"; "fill"; "linecap"; "text"]%string.
 
+(* the type component of the fragment predicate: in the strict fragment `any` never occurs inside a
+   composite type *)
+Definition fr_tyin (strict : bool) (t : ty) : bool := if strict then ty_s1in t else true.
+Definition fr_ty (strict : bool) (t : ty) : bool := if strict then ty_s1 t else true.
+
+Section Frag.
+Context (strict : bool).
+
 Fixpoint s1_expr (e : expr) {struct e} : bool :=
   let s1_exprs := fix go (es : list expr) : bool :=
     match es with [] => true | x :: r => s1_expr x && go r end in
@@ -519,18 +527,18 @@ Fixpoint s1_expr (e : expr) {struct e} : bool :=
     match ps with [] => true | (_, x) :: r => s1_expr x && go r end in
   match e with
   | ENum _ | EStr _ | EBool _ => true
-  | EVar _ t => ty_s1 t
-  | EAny a t => ty_s1in t && s1_expr a
-  | EArr t es => ty_s1in t && s1_exprs es
-  | EMap t ps => ty_s1in t && s1_pairs ps
+  | EVar _ t => fr_ty strict t
+  | EAny a t => fr_tyin strict t && s1_expr a
+  | EArr t es => fr_tyin strict t && s1_exprs es
+  | EMap t ps => fr_tyin strict t && s1_pairs ps
   | ECall name t args => mem_str name s1_builtins && s1_exprs args
   | EUn _ a => s1_expr a
-  | EBin _ t l r => ty_s1in t && s1_expr l && s1_expr r
-  | EIndex t l i => ty_s1in t && s1_expr l && s1_expr i
-  | ESlice t l lo hi => ty_s1in t && s1_expr l && s1_opt lo && s1_opt hi
-  | EDot t l _ => ty_s1in t && s1_expr l
+  | EBin _ t l r => fr_tyin strict t && s1_expr l && s1_expr r
+  | EIndex t l i => fr_tyin strict t && s1_expr l && s1_expr i
+  | ESlice t l lo hi => fr_tyin strict t && s1_expr l && s1_opt lo && s1_opt hi
+  | EDot t l _ => fr_tyin strict t && s1_expr l
   | EGroup a => s1_expr a
-  | EAssert t a => ty_s1in t && s1_expr a
+  | EAssert t a => fr_tyin strict t && s1_expr a
   end.
 
 Fixpoint s1_exprs (es : list expr) : bool :=
@@ -545,7 +553,7 @@ Fixpoint s1_stmt (s : stmt) {struct s} : bool :=
   let s1_stmts := fix go (l : list stmt) : bool :=
     match l with [] => true | x :: r => s1_stmt x && go r end in
   match s with
-  | SDecl _ t e => ty_s1 t && s1_expr e
+  | SDecl _ t e => fr_ty strict t && s1_expr e
   | SAssign target e => s1_expr target && s1_expr e
   | SCallStmt name args => mem_str name s1_builtins && s1_exprs args
   | SReturn _ => false
@@ -556,7 +564,7 @@ Fixpoint s1_stmt (s : stmt) {struct s} : bool :=
       && match els with Some b => s1_stmts b | None => true end
   | SWhile c body => s1_expr c && s1_stmts body
   | SFor var vt r body =>
-      match var with Some _ => ty_s1 vt | None => true end
+      match var with Some _ => fr_ty strict vt | None => true end
       && match r with
          | RStep a b c => s1_opt a && s1_expr b && s1_opt c
          | RExpr y => s1_expr y
@@ -568,7 +576,12 @@ Fixpoint s1_stmt (s : stmt) {struct s} : bool :=
 Fixpoint s1_stmts (l : list stmt) : bool :=
   match l with [] => true | x :: r => s1_stmt x && s1_stmts r end.
 
-Definition s1_program (P : program) : bool := s1_stmts (p_stmts P).
+End Frag.
+
+(* the two proved fragments: [s1_program] (any never inside a composite: no run goes wrong at all) and
+   the wider [s2_program] (no run goes wrong except by exhausting the host stack on a cyclic value) *)
+Definition s1_program (P : program) : bool := s1_stmts true (p_stmts P).
+Definition s2_program (P : program) : bool := s1_stmts false (p_stmts P).
 
 (* ---------- diagnosis: a short reason symbol for a rejected program ---------- *)
 Definition expr_kind (e : expr) : string :=
@@ -710,7 +723,7 @@ Definition why_program (P : program) : string :=
 Definition wt_case (x : sx) : sx :=
   match dec_program x with
   | Some P =>
-      if wt_program P then Lst [Sym (s_ "wt"); sx_bool true; sx_bool (s1_program P)]
+      if wt_program P then Lst [Sym (s_ "wt"); sx_bool true; sx_bool (s2_program P); sx_bool (s1_program P)]
       else Lst [Sym (s_ "wt"); sx_bool false; Sym (s_ (why_program P))]
   | None => Sym (s_ "decode-error")
   end.
